@@ -26,6 +26,7 @@ def pLEvent : P LEvent := do
   else if t = "C" then do let cs ← many pCall; let f ← pOrd; pure (.calls cs f)
   else if t = "K" then do let p ← nat; let i ← nat; pure (.ack p i)
   else if t = "X" then pure .deposed
+  else if t = "TK" then pure .tick
   else if t = "FT" then pure .heartbeatTimeout
   else if t = "FQ" then pure .idle
   else if t = "H" then do
@@ -128,6 +129,7 @@ def lmonFor : String → List LMonitor
   | "C07" => [fun st => at2 "membership" (LS.oneChangeAtATime st false 0), fun st => at2 "membership" (LS.stalePrevRefused st 0),
               fun st => at2 "follower" (LS.followerRules st 0)]
   | "C14" => [fun st => at2 "follower" (LS.followerRules st 0)]
+  | "C13" => [fun st => at2 "lease" (LS.leaseRule st 0 [] 0)]
   | "C08" => [fun st => at2 "client" (LS.ackExact (lp st) 0 (lp st)), fun st => LS.ackOrder (lp st), fun st => LS.fsmInOrder (lp st)]
   | "C02" => [fun st => LS.fsmInOrder (lp st), fun st => at2 "client" (LS.ackExact (lp st) 0 (lp st))]
   | "C03" => [fun st => at2 "commit" (LS.commitRule st 0), fun st => at2 "membership" (LS.oneChangeAtATime st false 0),
@@ -143,7 +145,8 @@ def lmonFor : String → List LMonitor
           fun st => at2 "membership" (LS.stalePrevRefused st 0),
           fun st => at2 "client" (LS.ackExact (lp st) 0 (lp st)), fun st => LS.ackOrder (lp st), fun st => LS.fsmInOrder (lp st), LS.verifyFresh, LS.nothingStranded,
           LS.notifyFaithful, fun st => at2 "leader" (LS.requestsFromLog st 0), fun st => at2 "leader" (LS.requestsSpeakForLedTerm st none 0),
-          fun st => at2 "leader" (LS.requestsToCurrentAddress st 0), fun st => at2 "follower" (LS.followerRules st 0)]
+          fun st => at2 "leader" (LS.requestsToCurrentAddress st 0), fun st => at2 "follower" (LS.followerRules st 0),
+          fun st => at2 "lease" (LS.leaseRule st 0 [] 0)]
 
 def lfirstSome (st : List LS.LStep) : List LMonitor → Option String
   | [] => none
